@@ -111,6 +111,11 @@ H2Msg == NBytes(FromNat(5))
 H2Sig == AdEncrypt(HKey, HY, H2Msg, << "def", Rnd32(14) >>)[2]
 H2Obj == AdDecrypt(HDec, H2Sig)[2]
 OtherPt == PMulG(Rs(15))
+\* an honest adaptor signature whose s' is small (message solved for it: m = s'k - r x), so that s' + n fits in 32 bytes
+H3K   == Rs(34)
+H3Msg == NBytes(SSub(SMul(FromNat(7), H3K), SMul(Mod(PMul(H3K, HY)[1], N), FromBytesBE(HKey))))
+H3Sig == AdEncrypt(HKey, HY, H3Msg, << "two", TRUE, NBytes(H3K), TRUE, Rnd32(35) >>)[2]
+H3Obj == AdDecrypt(HDec, H3Sig)[2]
 
 Cases ==
        { << "pipe", k, d, m, s >> : k \in 1..(IF Thorough THEN 7 ELSE 3), d \in 1..(IF Thorough THEN 6 ELSE 3),
@@ -122,8 +127,9 @@ Cases ==
   \cup { << "flipv", b >> : b \in 0..1295 }
   \cup { << "flipd", b >> : b \in 0..1295 }
   \cup { << "flipr", b >> : b \in 0..1295 }
-  \cup { << "flipm", b >> : b \in 0..255 }
-  \cup { << "flipk", w, b >> : w \in {1, 2}, b \in 0..263 }
+  \cup { << "flipm", b >> : b \in { x \in 0..255 : Thorough \/ x % 4 = 3 } }
+  \cup { << "flipk", w, b >> : w \in {1, 2}, b \in { x \in 0..263 : Thorough \/ x % 4 = 3 } }
+  \cup { << "ssp", v, op >> : v \in {1, 2}, op \in 1..3 }
   \cup { << "scal", f, v, op >> : f \in {0, 3, 4, 5}, v \in 1..9, op \in 1..3 }
   \cup { << "pt", f, v, op >> : f \in {1, 2}, v \in 1..12, op \in 1..3 }
   \cup { << "vk", v >> : v \in 1..14 }
@@ -266,7 +272,7 @@ TinyFew(S) == IF NN < 50 THEN S ELSE { x \in S : x % 23 \in {1, 5, 22} \/ x = NN
 TinyVal(x) == IF x = NN + 3 \/ x = 2 * NN + 2 THEN Max256 ELSE FromNat(x)
 TinyHonest == { << d, y, m, k1, k2 >> : d \in {1, NN - 1, 5}, y \in {1, NN - 1, 4}, m \in {1, 3}, k1 \in {1, 6}, k2 \in {3} }
 TinyCases ==
-       { << "tpipe", d, y, m, k1, k2 >> : d \in TinyFew(1..(NN-1)), y \in TinyFew(1..(NN-1)), m \in 1..6, k1 \in 0..NN, k2 \in (IF Thorough THEN {1, 5} ELSE {1}) }
+       { << "tpipe", d, y, m, k1, k2 >> : d \in TinyFew(1..(NN-1)), y \in TinyFew(1..(NN-1)), m \in (IF Thorough THEN 1..6 ELSE {1, 3, 4, 6}), k1 \in 0..NN, k2 \in (IF Thorough THEN {1, 5} ELSE {1}) }
   \cup { << "tpipe", d, y, m, 2, k2 >> : d \in {3}, y \in {NN - 2}, m \in {2}, k2 \in 0..(NN + 1) }
   \cup { << "tpipedef", d, y, m, a >> : d \in 0..(NN + 1), y \in 1..(NN-1), m \in {1, 3, 6}, a \in {1, 2, 9} }
   \cup { << "tver", h, f, val >> : h \in TinyHonest, f \in {1, 2}, val \in 0..NN }
@@ -320,6 +326,10 @@ Expand(c) ==
     [] c[1] = "flipm" -> AV(HSig, Ser33(HX), FlipBit(HMsg, c[2]), Ser33(HY))
     [] c[1] = "flipk" -> IF c[2] = 1 THEN AV(HSig, FlipBit(Ser33(HX), c[3]), HMsg, Ser33(HY))
                          ELSE AV(HSig, Ser33(HX), HMsg, FlipBit(Ser33(HY), c[3]))
+    [] c[1] = "ssp"   -> LET a == IF c[2] = 1 THEN H3Sig ELSE SetField(H3Sig, 3, NBytes(Add(AdSp(H3Sig), N))) IN
+                         CASE c[3] = 1 -> AV(a, Ser33(HX), H3Msg, Ser33(HY))
+                           [] c[3] = 2 -> AD(HDec, a)
+                           [] c[3] = 3 -> AR(SigBytes(H3Obj), a, Ser33(HY))
     [] c[1] = "scal"  -> ExpandScal(c[2], c[3], c[4])
     [] c[1] = "pt"    -> ByOp(c[4], SetField(HSig, c[2], PointVariant(HSig, c[2], c[3])))
     [] c[1] = "vk"    -> ExpandVk(c[2])
